@@ -18,7 +18,12 @@ CFG = {
          'estimators, the eight EvaluateLogPdf data sets, the numeric estimator) x the same grid, with one observation no component can explain '
          '(non-integer / negative count, value outside the categories, +Inf): the outcome of the sequential run (error or nil, outputs) is the '
          'reference; options = the 8 EM / Baum-Welch entries x {OptimizeEmissions=false, OptimizeWeights/Transitions=false, both} x the same '
-         'grid (includes pools larger than the number of observations / records).  Per parallel run: (1) outputs (likelihood per step, all parameters / the table of log densities) against the sequential '
+         'grid (includes pools larger than the number of observations / records); densities = every scalar density '
+         'type of the library (21: the estimators\' families, PdfTranslation / PdfLogTransform from the wrapper estimators and around other '
+         'densities, nested PdfTranslation, Mixture, gamma, chi-squared, generalised gamma, Cauchy, Laplace, GEV, generalised Pareto, Pareto, '
+         'power law, beta, binomial, negative binomial) x the four scalar data-set EvaluateLogPdf entries x k in {2,4,17} with 8-24 '
+         'observations per thread; the wrapper estimators / densities are also components of the mixture and HMM estimators and of the vector '
+         '/ matrix data sets (ScalarId, ScalarIid, VectorId, VectorIid over them).  Per parallel run: (1) outputs (likelihood per step, all parameters / the table of log densities) against the sequential '
          'run; (2) Event log: same multiset of (site, item) as the sequential run (lost / double), nothing logged after the call returned (late), '
          'thread id < k and used by one goroutine per call; (4) watchdog in logical steps.  (3) the race build runs one case in two of the same '
          'list (no Event hook there, its mutex would order the threads for the detector).  non-trivial = parallel run with k >= 2 that was judged '
@@ -48,6 +53,27 @@ CFG = {
                  're-association bound covers',
                  'classifiers take no thread pool; ScalarBatchId / VectorBatchId are driven through the shape HMM only'],
  'min_cov': {
+             'density:beta': 9,
+             'density:binomial': 9,
+             'density:categorical': 9,
+             'density:cauchy': 9,
+             'density:chiSquared': 9,
+             'density:gamma': 9,
+             'density:generalizedGamma': 9,
+             'density:gev': 10,
+             'density:gpareto': 9,
+             'density:laplace': 9,
+             'density:logTransform': 9,
+             'density:logTransform(laplace)': 9,
+             'density:mixture(normal,normal)': 9,
+             'density:negativeBinomial': 9,
+             'density:normal': 8,
+             'density:pareto': 9,
+             'density:poisson': 9,
+             'density:powerLaw': 10,
+             'density:translation': 10,
+             'density:translation(gamma)': 10,
+             'density:translation(translation(normal))': 9,
              'distinct option cells': 537,
              'error-path:cases': 693,
              'error-path:parallel run reports the error too': 2169,
